@@ -17,7 +17,8 @@ from sim.vclock import UTYPE_DIR
 
 ID = "C20"
 RULE = ("plan = (scenario W1 pending module-level forward refs / W2 function-local self-referencing classes / W3 conversions "
-        "racing registrations / W4 concurrent decoration + first calls / W5 warmed steady state, world parameters, 2-3 threads "
+        "racing registrations / W4 concurrent decoration + first calls / W5 warmed steady state / W6 a thread declaring new classes "
+        "with the same annotation spellings while others make first parses, world parameters, 2-3 threads "
         "x 1-3 operations, schedule policy uniform/targeted/quantum/pct/anchor-pct/sequential with its private seed); non-trivial = >=1 "
         "pre-emptive switch while >=2 threads are in the middle of an operation and one of them is inside an anchor function "
         "(resolve_forward_refs, apply_for, TypeRegistry.register/resolve, ...); distinct by hash of the switch-location sequence")
@@ -130,7 +131,18 @@ def w4_source(p):
         ""])
 
 
-SOURCES = {"W1": w1_source, "W2": w2_source, "W3": w3_source, "W4": w4_source, "W5": w1_source}
+SOURCES = {"W1": w1_source, "W2": w2_source, "W3": w3_source, "W4": w4_source, "W5": w1_source, "W6": w1_source}
+
+
+def w6_declaration(p, name):
+    """A class declared by a running thread; its annotations are spelled exactly like A's, so typing's alias cache hands it
+    the very ForwardRef objects that A's first parse is evaluating at that moment."""
+    return "\n".join([
+        f"class {name}(Schema):",
+        "    z: int = 0",
+        f"    b: {p['b_ann']} = None",
+        f"    bs: {p['bs_ann']} = Field(default_factory={'dict' if p['bs_ann'].startswith('Dict') else 'list'})",
+        ""])
 
 
 def build_world(plan):
@@ -171,6 +183,15 @@ def run_op(mod, op, params):
         return utype.type_transform(op["value"], getattr(mod, op["cls"]))
     if k == "local":
         return mod.use(op["u"])
+    if k == "declare":
+        kernel.exec_into(mod, w6_declaration(params, op["name"]))
+        cls = getattr(mod, op["name"])
+        if op.get("use") is None:
+            return ["declared"]
+        data = dict(op["use"])
+        if "bs" in data:
+            data["bs"] = _bs_value(params, data["bs"])
+        return cls(**data)
     if k == "convert":
         cls = getattr(mod, op["cls"])
         return utype.type_transform(op["value"], cls)
@@ -256,19 +277,42 @@ def _gen_ops_w1(rng, params, n):
 
 
 def generate(rng, tier):
-    sc = rng.choice(["W1", "W1", "W1", "W2", "W3", "W3", "W4", "W5"])
+    sc = rng.choice(["W1", "W1", "W1", "W2", "W3", "W3", "W4", "W5", "W6", "W6"])
     nthreads = rng.choice([2, 2, 2, 3])
     plan = {"prop": ID, "scenario": sc, "params": {}}
     counts = [rng.choice([1, 1, 2]) for _ in range(nthreads)]
     while sum(counts) > 6:
         counts[counts.index(max(counts))] -= 1
-    if sc in ("W1", "W5"):
-        p = {"b_ann": rng.choice(SPELL_OPT[:3] if sc == "W1" else SPELL_OPT), "bs_ann": rng.choice(SPELL_MANY),
+    if sc in ("W1", "W5", "W6"):
+        p = {"b_ann": rng.choice(SPELL_OPT[:3] if sc != "W5" else SPELL_OPT), "bs_ann": rng.choice(SPELL_MANY),
              "collect": rng.random() < 0.3, "constrained": rng.random() < 0.4, "func_first": rng.random() < 0.4}
         plan["params"] = p
         plan["threads"] = [_gen_ops_w1(rng, p, c) for c in counts]
+        if sc == "W6":
+            # one thread declares (and maybe uses) new classes while the others make their first parses
+            t = rng.randrange(nthreads)
+            plan["threads"][t] = [{"op": "declare", "name": "N%d_%d" % (t, i),
+                                   "use": rng.choice([None, {"z": 1, "b": {"y": 1}}, {"bs": [{"y": 2}]}])}
+                                  for i in range(max(1, counts[t]))]
     elif sc == "W2":
         plan["threads"] = [[{"op": "local", "u": 10 * (t + 1) + i} for i in range(c)] for t, c in enumerate(counts)]
+    elif sc == "W3" and rng.random() < 0.5:
+        # the memo race needs: a lookup of K in flight, a registration for K completing, and a LATER lookup of K
+        cls = rng.choice(["T", "TS"])
+        how = rng.choice(["convert", "convert_field", "encode"])
+
+        def look():
+            if how == "convert":
+                return {"op": "convert", "cls": cls, "value": 1}
+            if how == "encode":
+                return {"op": "encode", "cls": cls, "value": 5}
+            return {"op": "convert_field", "value": 1, "field": "t" if cls == "T" else "ts"}
+        reg = ({"op": "register_encoder", "classes": [rng.choice(["T", cls])], "tag": "e1"} if how == "encode" else
+               {"op": "register", "classes": [rng.choice(["T", cls])], "tag": "r1", "sub": True, "priority": 0})
+        ths = [[look(), look()], [reg]]
+        if nthreads == 3:
+            ths.append([look()])
+        plan["threads"] = ths
     elif sc == "W3":
         ths = []
         tagn = 0
